@@ -949,6 +949,7 @@ func (p *c08) Run(c *verifsim.Chooser, st *Stats, render bool) *Outcome {
 			return o
 		}
 		for i := 0; i < 2; i++ {
+			stillAlive()
 			ev.ctx.Rearm(-1)
 			ev.ctx.HardCap = 400000
 			var r Result
